@@ -155,6 +155,29 @@ pub fn run(env: &Env, run: &Run) -> (Stats, Coverage) {
                 classify(&exp, &l, st, env, class);
             }
         }
+        for a in alias_chars(c) {
+            let l = vec![x, a as u32];
+            let s = from_cps(&l);
+            for class in [Class::Identifier, Class::Freeform] {
+                check_std(env, class, &l, &s, st);
+            }
+        }
+    }));
+
+    // structural families: pumped runs a^k b / b a^k / a^k b a (k around 8, 16, 32, 64 and, for a
+    // few symbols, 128..1025) and every ASCII character at every offset of 7..33-byte ASCII strings
+    let fam = {
+        let mut v = pumped(&sigma, &PUMP_LENGTHS);
+        v.extend(pumped(&sigma[..sigma.len().min(6)], &PUMP_LENGTHS_LONG));
+        v.extend(ascii_blocks());
+        v
+    };
+    st.merge(run_family(&fam, |s, st| {
+        let l: Vec<u32> = s.chars().map(|c| c as u32).collect();
+        for class in [Class::Identifier, Class::Freeform] {
+            let exp = check_std(env, class, &l, s, st);
+            classify(&exp, &l, st, env, class);
+        }
     }));
     // user-supplied classes: all assignments of the 7 values to k symbols x all labels
     let k = run.tier.pick(4usize, 5usize);
@@ -198,7 +221,7 @@ pub fn run(env: &Env, run: &Run) -> (Stats, Coverage) {
     st.sample(json!({"class": "FreeformClass", "label": ["l", "U+00B7", "l", "U+0378"], "expected": "BadCodepoint{cp:0x378, position:3, Unassigned} - the satisfied middle dot does not stop the scan"}));
     st.sample(json!({"class": "user class {l:ContextO, U+00B7:PValid}", "label": ["l"], "expected": "an error naming 'l' at position 0 (no RFC 5892 rule exists for it)"}));
     let cov = Coverage {
-        rule: format!("standard classes: every label of length <= {} over a 25-symbol alphabet holding every derived-property value x every context-rule family x every enabling neighbour x UTF-8 lengths 1-4, plus every scalar value in 13 label templates (incl. every role a context rule inspects), both classes; user classes: all 7^{} assignments of derived-property values to {:?} x all {} labels of length <= {}; oracle = first-offender semantics with RFC 5892 rules (reference), classification taken from the class's own get_value_from_char; non-trivial = label holds a contextual code point or is rejected at index >= 1 behind a multi-byte character", n, k, syms.iter().map(|c| format!("U+{:04X}", c)).collect::<Vec<_>>(), labels.len(), ln),
+        rule: format!("standard classes: every label of length <= {} over a 25-symbol alphabet holding every derived-property value x every context-rule family x every enabling neighbour x UTF-8 lengths 1-4, plus pumped runs and ASCII block strings, every scalar value in 13 label templates and next to each of its bit-16..20 aliases (incl. every role a context rule inspects), both classes; user classes: all 7^{} assignments of derived-property values to {:?} x all {} labels of length <= {}; oracle = first-offender semantics with RFC 5892 rules (reference), classification taken from the class's own get_value_from_char; non-trivial = label holds a contextual code point or is rejected at index >= 1 behind a multi-byte character", n, k, syms.iter().map(|c| format!("U+{:04X}", c)).collect::<Vec<_>>(), labels.len(), ln),
         alphabet: json!(sigma.iter().map(|c| format!("U+{:04X}", *c as u32)).collect::<Vec<_>>()),
         bound_completed: format!("tree length <= {} ({} labels x 2 classes); sweep 1,112,064 x 13 templates x 2 classes; user classes {} assignments x {} labels", n, tree_size(sigma.len(), n), nassign, labels.len()),
         exhaustive: false,
